@@ -82,3 +82,6 @@ pub fn workers() -> Vec<(&'static str, WorkerFn)> {
     v.extend(c20::workers());
     v
 }
+
+/// Part of the C19 engine (path confinement), driven from `c19::run`.
+pub mod c19_confine;
